@@ -98,8 +98,13 @@ def list_join_clause(segment: BaseSegment) -> list[BaseSegment]:
                 else:
                     # no join at top level, and there is select statement in from_clause
                     return []
-        # otherwise, recursively find join_clause
-        return list(segment.recursive_crawl("join_clause"))
+        # otherwise, recursively find join_clause, but stay out of subqueries: their joins belong to their own scope
+        return list(
+            segment.recursive_crawl(
+                "join_clause",
+                no_recursive_seg_type=["select_statement", "set_expression"],
+            )
+        )
     return []
 
 
